@@ -1544,6 +1544,10 @@ local function visitor_Call(context, node, argnodes, calleetype, calleesym, call
     if sideeffect then
       attr.sideeffect = true
       context:mark_funcscope_sideeffect()
+    else -- evaluating the call evaluates its arguments
+      for i=1,#argnodes do
+        if argnodes[i].attr.sideeffect then attr.sideeffect = true end
+      end
     end
     attr.calleetype = calleetype
   else
